@@ -42,10 +42,11 @@ def extract(ck):
                "def facKeys : List String := %s\n"
                "def unitFactors : List String := %s\n"
                "end QV.Gen.C05\n" % (L(eunits, S), L(rec[0], S), L(keys, S), L(ones, S)))
+        ck.gen_facts("C05", [eunits, rec[0]])
         return eunits, rec[0]
     except (X.ExtractError, Exception) as e:
-        ck.tie_fail("extraction of the unit tables failed: %r" % (e,))
-        return None
+        r = ck.tie_fallback("C05", "extraction of the unit tables failed: %r" % (e,))
+        return (r[0], r[1]) if r else None
 
 
 class Boom(Exception):
